@@ -260,7 +260,8 @@ def gen_env(rng, mode, case, plain=True, noliteral=False):
         "version_table": rng.choice(["alembic_version"] * 8 + ["my_versions", "Version", "ver;sion tbl"]),
         "version_table_pk": rng.random() >= 0.15,
         "version_table_schema": "main" if rng.random() < 0.1 else None,
-        "output_encoding": "utf-8" if rng.random() < 0.15 else None,
+        # codecs that cannot encode every generated literal: a refusal (UnicodeEncodeError) is fine, a script must be faithful
+        "output_encoding": rng.choice([None] * 16 + ["utf-8", "utf-8", "latin-1", "cp1252", "ascii"]),
         # (with an autocommit_block in a body this combination is known finding C12-AUTOCOMMIT-EXT: kept rare)
         "external_txn": mode == "fake" and rng.random() < ((0.02 if plain else 0.0) if has_auto else 0.2),
         "callbacks": rng.random() < 0.2,
@@ -283,7 +284,7 @@ def execute_case(case, mode):
         else:
             r = I.FakeRunner(case["hist"], case["bodies"], case_env(case))
         try:
-            return I.run_case(r, tmp, case["cmd"], case["start"], case["target"])
+            return I.run_case(r, tmp, case["cmd"], case["start"], case["target"], case.get("start_spelled"))
         finally:
             r.close()
     finally:
@@ -298,6 +299,9 @@ def judge(res):
     if on and off:
         return "skip", "both-raise", []
     if off:
+        if off.startswith("UnicodeEncodeError") and res.get("output_encoding") not in (None, "utf-8"):
+            # the configured output codec cannot represent a literal: the command refuses, no script exists to be judged
+            return "skip", "refusal-unencodable", []
         return "fail", "offline-error: generating the script raised while the online run succeeded: %s" % off, []
     if on:
         if res.get("exec_error"):
@@ -318,7 +322,8 @@ def judge(res):
 
 
 def summarise(case, mode):
-    return {k: case[k] for k in ("shape", "cmd", "start", "target")} | {"mode": mode, "n_revs": len(case["hist"])}
+    return {k: case[k] for k in ("shape", "cmd", "start", "target")} | {"mode": mode, "n_revs": len(case["hist"]),
+                                                                    "start_spelled": case.get("start_spelled")}
 
 
 def one_case(ctx, case, mode, pending):
@@ -329,6 +334,11 @@ def one_case(ctx, case, mode, pending):
     ctx.hist("cmd", case["cmd"])
     ctx.hist("n_revs", len(case["hist"]))
     ctx.hist("start_heads", len(case["start"]))
+    by_id = {r["id"]: r for r in case["hist"]}
+    for rid, sp in zip(case["start"], case.get("start_spelled") or case["start"]):
+        ctx.hist("start_spelling", "id" if sp == rid else ("label" if sp in (by_id[rid].get("labels") or []) else ("label@id" if "@" in sp else "prefix")))
+    ctx.hist("target_spelling", "label@head" if "@" in case["target"] else ("id" if case["target"] in by_id else case["target"] if case["target"] in ("heads", "head", "base") or case["target"][:1] in "+-" else "prefix"))
+    ctx.hist("history_labels", sum(1 for r in case["hist"] if r.get("labels")) > 0)
     env = case_env(case)
     for k in ("literal_binds", "per_migration", "transactional_ddl", "version_table", "version_table_pk", "version_table_schema",
               "output_encoding", "external_txn", "callbacks"):
@@ -524,6 +534,25 @@ def battery_cases():
             out.append(({"shape": "linear", "hist": lin, "bodies": strip(bodies), "cmd": "upgrade", "start": ["a1"], "target": "c3", "env": env}, "real"))
         out.append(({"shape": "merged", "hist": mrg, "bodies": strip(mb), "cmd": "upgrade", "start": ["b2", "c3"], "target": "heads", "env": env}, "fake"))
         out.append(({"shape": "merged", "hist": mrg, "bodies": strip(mb), "cmd": "downgrade", "start": ["m4"], "target": "base", "env": env}, mode))
+    # branch labels: the range start written as the label its revision declares, as label@id; the target as label@head
+    lab = json.loads(json.dumps(lin))
+    lab[1]["labels"] = ["ledger"]
+    lab[2]["labels"] = ["tip"]
+    for mode in ("fake", "real"):
+        out.append(({"shape": "linear", "hist": lab, "bodies": bodies, "cmd": "upgrade", "start": ["b2"], "start_spelled": ["ledger"],
+                     "target": "c3", "env": {}}, mode))
+        out.append(({"shape": "linear", "hist": lab, "bodies": bodies, "cmd": "upgrade", "start": ["b2"], "start_spelled": ["ledger@b2"],
+                     "target": "tip@head", "env": {"literal_binds": False}}, mode))
+        out.append(({"shape": "linear", "hist": lab, "bodies": bodies, "cmd": "downgrade", "start": ["c3"], "start_spelled": ["tip"],
+                     "target": "a1", "env": {}}, mode))
+    # --sql output through a codec that cannot encode every literal: unmodified alembic refuses (UnicodeEncodeError, no script)
+    for enc in ("latin-1", "ascii", "cp1252"):
+        out.append(({"shape": "linear", "hist": lin, "bodies": bodies, "cmd": "upgrade", "start": [], "target": "heads",
+                     "env": {"output_encoding": enc}}, "real" if enc == "latin-1" else "fake"))
+    enc_bodies = json.loads(json.dumps(bodies).replace("\\u65e5\\u672c", "\\u00e9\\u00ff"))  # only latin-1 / cp1252 characters
+    for enc in ("latin-1", "cp1252"):
+        out.append(({"shape": "linear", "hist": lin, "bodies": enc_bodies, "cmd": "upgrade", "start": [], "target": "heads",
+                     "env": {"output_encoding": enc, "literal_binds": False}}, "fake" if enc == "latin-1" else "real"))
     # malformed stream: rows that are not a list / not dicts raise TypeError online and offline alike
     for bad in ("tuple", "rowlist"):
         b2 = json.loads(json.dumps(bodies))
@@ -540,7 +569,7 @@ def run_battery(ctx, pending):
 
 def run(ctx, n_cases=None, rng_name="main"):
     rng = ctx.rng(rng_name)
-    n = n_cases or (3000 if ctx.thorough else 230)
+    n = n_cases or (3000 if ctx.thorough else 210)
     pending = []
     if rng_name == "main":
         run_battery(ctx, pending)
